@@ -753,7 +753,11 @@ func condWake(c *sync.Cond, all bool) {
 	}
 	for cs.nwaiting > 0 {
 		cs.signalled[cs.waiting[0]] = true
-		copy(cs.waiting[:], cs.waiting[1:cs.nwaiting])
+		// element-wise on purpose: the copy builtin goes through runtime.slicecopy,
+		// which reports its accesses to the race detector whoever the caller is
+		for i := 1; i < cs.nwaiting; i++ {
+			cs.waiting[i-1] = cs.waiting[i]
+		}
 		cs.nwaiting--
 		st.stuck = 0
 		if !all {
